@@ -345,11 +345,7 @@ package tchannel
 // ownership clauses below (handleNonCallReq, Relayer.handleCallReq,
 // messageExchangeSet.forwardPeerFrame); see report for why it cannot be made a
 // verified contract from this file.
-//@ func (r *Relayer) Relay(f *Frame) (shouldRelease bool, err error)
-//@   trusted
-//@   requires FrameFull(f) && f.Header.size >= 16
-//@   label released-frames-are-still-held
-//@   ensures shouldRelease ==> own(f) == 1
+// (Relayer.Relay: verified contract in verif_contracts_relay.go)
 
 //@ func (c *Connection) handleFrameRelay(frame *Frame) (release bool)
 //@   label released-frames-are-still-held
